@@ -14,7 +14,7 @@ import CSD.Lemmas.HashRP
 import CSD.Lemmas.HashRPF
 import CSD.Lemmas.CodecRoundTrip
 import CSD.Lemmas.FM11
-import CSD.Lemmas.RPFC4
+import CSD.Lemmas.RPFC6
 
 namespace CSD.Props.C01
 open CSD CSD.PFC
@@ -246,6 +246,15 @@ string, also when the VByte byte is `0xFF` (shared length 127), the value of the
 symbol is read past the bucket's stream. Which rules Re-Pair chose does not matter. -/
 theorem rpfc_extract_exact {S : List Str} {d : RPFC.D} (hst : RPFC.Stores S d) (i : Nat) (h1 : 1 ≤ i)
     (h2 : i ≤ S.length) : RPFC.extract d i = some (S[i - 1]?) := RPFC.extract_stores hst i h1 h2
+
+/-- `StringDictionaryRPFC::locate` is exact over any grammar and streams that store the dictionary: the
+rank of a member (so `locate (extract i) = i` and `extract (locate s) = s` with `rpfc_extract_exact`), found by
+the binary search on the plain headers and the scan that decodes every string of the candidate bucket in
+full, tests the shared length and resumes the comparison at the length shared with the query. -/
+theorem rpfc_locate_exact {S : List Str} {d : RPFC.D} (hst : RPFC.Stores S d) (hv : validDict S = true)
+    (q : Str) (hq : nulFree q) : RPFC.locate d q = some (Spec.locate S q) := by
+  obtain ⟨hne, hn, hs, _⟩ := validDict_facts hv
+  exact RPFC.locate_stores hst q hne hn hq hs
 
 /-- The hypothesis is what the driver checks (an executable predicate) on every RPFC object exported by
 the real code, before and after save/load: a successful check gives `Stores`. -/
